@@ -423,7 +423,8 @@ def _bell_instance(p):
         return np.array([[1.0, 1.0], [1.0, -1.0]]), np.array([-1.0, 0.0]), np.array([-1.0, 0.0]), np.array([0, 1]), np.array([0, 1])
     if name == "tilted":  # alpha A0 + CHSH, quantum max sqrt(8 + 2 alpha^2)
         al = p.get("alpha", 0.5)
-        return np.array([[1.0, 1.0], [1.0, -1.0]]), np.array([al, 0.0]), z.copy(), np.array([1, -1]), np.array([1, -1])
+        J = np.array([[1, 1], [1, -1]]) if p.get("int_joint") else np.array([[1.0, 1.0], [1.0, -1.0]])
+        return J, np.array([al, 0.0]), z.copy(), np.array([1, -1]), np.array([1, -1])
     if name == "marginal-only":
         return np.zeros((2, 2)), np.array([1.0, -0.5]), np.array([0.25, 2.0]), np.array([1, -1]), np.array([1, -1])
     rng = np.random.default_rng(p.get("seed", 0))
@@ -434,6 +435,10 @@ def _bell_instance(p):
     else:
         ac, bc = z.copy(), z.copy()
     vals = {"pm": [1, -1], "mp": [-1, 1], "01": [0, 1], "10": [1, 0]}
+    if p.get("int_joint"):  # integer-typed joint coefficients and outcome values with fractional marginal terms (e.g. tilted CHSH typed in by hand)
+        J = np.rint(3 * J).astype(np.int64)
+        if not J.any():
+            J[0, 0] = 1
     return J, ac, bc, np.array(vals[p.get("aval", "pm")]), np.array(vals[p.get("bval", "pm")])
 
 
@@ -856,6 +861,15 @@ def cases(tier, seed):
             add("bell.marg_le", dict(par), "bell/named")
     for al in (0.25, 1.0, 1.5):
         add("bell.closed", dict(name="tilted", alpha=al), "bell/named")
+    for al in (0.5, 0.25):
+        add("bell.closed", dict(name="tilted", alpha=al, int_joint=True), "bell/integer-joint-coefficients")
+        add("bell.marg_ge", dict(name="tilted", alpha=al, int_joint=True), "bell/integer-joint-coefficients")
+        add("bell.marg_le", dict(name="tilted", alpha=al, int_joint=True), "bell/integer-joint-coefficients")
+    for i in range(6 if thorough else 3):
+        for av, bv in (("pm", "pm"), ("01", "01"), ("pm", "01")):
+            par = dict(seed=seed + 900 + i, marg=True, aval=av, bval=bv, int_joint=True)
+            for cl in ("bell.marg_ge", "bell.marg_le", "bell.det_ge"):
+                add(cl, dict(par), "bell/integer-joint-coefficients")
     nb = 150 if thorough else 12
     for i in range(nb):
         for av, bv in (("pm", "pm"), ("mp", "pm")):
